@@ -80,6 +80,8 @@ def build_value(spec):
             return EXC_CLASSES[spec['exc'][0]](spec['exc'][1])
         if set(spec) == {'floaty'}:
             return Floaty(spec['floaty'])
+        if set(spec) == {'badstr'}:
+            return BadStr()
         return {k: build_value(v) for k, v in spec.items()}
     if isinstance(spec, list):
         return [build_value(v) for v in spec]
@@ -199,11 +201,23 @@ def nested_local_uses(expr, local_names):
     return sorted(set(found))
 
 
+class BadStr:
+    """a host object whose __str__ raises"""
+
+    def __str__(self):
+        raise RuntimeError('no text for this object')
+
+    def __repr__(self):
+        return 'BadStr()'
+
+
 def describe(v, failed=False):
+    str_raises = False
     try:
         text = str(v)
     except BaseException as e:  # noqa: B902
         text = '<str raises %s>' % type(e).__name__
+        str_raises = isinstance(e, Exception)
     val = {'k': 'other'}
     if not failed:
         if isinstance(v, bool):
@@ -219,7 +233,8 @@ def describe(v, failed=False):
                 val = {'k': 'float', 'v': repr(float(v))}     # an object that converts: described by its number
             except Exception:   # noqa: B902
                 val = {'k': 'other'}
-    return {'failed': failed, 'isExc': isinstance(v, BaseException), 'ty': type(v).__name__, 'text': text, 'val': val}
+    return {'failed': failed, 'isExc': isinstance(v, BaseException), 'ty': type(v).__name__, 'text': text, 'val': val,
+            'strRaises': str_raises}
 
 
 SIMPLE_TYPES = {'int', 'str', 'bool', 'float', 'NoneType'}
